@@ -398,7 +398,15 @@ def check(run):
     for rnd in range(1 if quick else 6):
         for name in sorted(cfgs):
             field, flags = cfgs[name]
-            cases.append(build_case(run, rng, name, field, flags, 4 if quick else 6))
+            try:
+                cases.append(build_case(run, rng, name, field, flags, 4 if quick else 6))
+            except Exception as ex:
+                # indexing / opening with this analyzer failed: a violation of its own, the other analyzers go on
+                import traceback
+                tb = traceback.extract_tb(ex.__traceback__)
+                cases.append({"idx": {"docs": []}, "analyzer": name, "qs": [{"q": {"op": "null"}, "text": "", "obs": [
+                    {"kind": "error", "path": "building the index", "err": type(ex).__name__, "msg": str(ex)[:200],
+                     "where": ["%s:%d %s" % (f.filename.split("/")[-1], f.lineno, f.name) for f in tb[-3:]]}]}]})
     rejects = qobs.judge(run, cases, name="AnalysisCheck", module="AnalysisCheck", chunk=12)
     bad = set()
     for ci, qi, oi, exp in rejects:
